@@ -95,8 +95,12 @@ def random_program(rng, kind):
     for s in range(ns):
         ops = []
         for _ in range(rng.choice([1, 2, 3])):
-            ops.append({'op': 'send', 'm': mid, 'lane': rng.choice([1, 2]) if kind == 'multi' else 1})
-            mid += 1
+            lane = rng.choice([1, 2]) if kind == 'multi' else 1
+            if rng.random() < 0.2:
+                ops.append({'op': 'send', 'm': portrun.RT_ID, 'lane': lane})      # a real-time message
+            else:
+                ops.append({'op': 'send', 'm': mid, 'lane': lane})
+                mid += 1
             total += 1
         prog.append(ops)
     # receivers either only poll (may find nothing) or only block - and then
